@@ -26,6 +26,9 @@ func implies(e ast.Expr, polarity bool, atom guardAtom) bool {
 		}
 		a := model.AliasOfIdent(id)
 		if a == nil {
+			a = model.OutcomeOfIdent(id)
+		}
+		if a == nil {
 			break
 		}
 		e = ast.Unparen(a)
@@ -224,6 +227,38 @@ func afterTerminatingSwitch(m *model.Model, pkgInfo *types.Info, body *ast.Block
 		if !ok {
 			return true
 		}
+		// the same as a chain of ifs: if status == KindError { …; return } else if status == KindComplete { …; return }
+		if blk.Pos() <= target.Pos() && target.End() <= blk.End() {
+			closed := map[int64]bool{}
+			for _, s := range blk.List {
+				if s.End() > target.Pos() {
+					break
+				}
+				for is, _ := s.(*ast.IfStmt); is != nil; {
+					if be, ok := ast.Unparen(is.Cond).(*ast.BinaryExpr); ok && be.Op == token.EQL && is.Init == nil {
+						var k ast.Expr
+						switch {
+						case isStatusSel(pkgInfo, be.X):
+							k = be.Y
+						case isStatusSel(pkgInfo, be.Y):
+							k = be.X
+						}
+						if k != nil && len(is.Body.List) > 0 {
+							if v, isConst := constVal(pkgInfo, k); isConst && v != 0 {
+								if _, ends := is.Body.List[len(is.Body.List)-1].(*ast.ReturnStmt); ends {
+									closed[v] = true
+								}
+							}
+						}
+					}
+					next, _ := is.Else.(*ast.IfStmt)
+					is = next
+				}
+			}
+			if len(closed) >= closedKinds {
+				found = true
+			}
+		}
 		for _, s := range blk.List {
 			sw, ok := s.(*ast.SwitchStmt)
 			if !ok || sw.Tag == nil || !isStatusSel(pkgInfo, sw.Tag) {
@@ -392,4 +427,75 @@ func inOpenClause(pkgInfo *types.Info, body *ast.BlockStmt, target ast.Node, clo
 		return true
 	})
 	return found
+}
+
+// statusKindTest: cond is `<x>.status == K` (either order) for a constant K; returns K.
+func statusKindTest(info *types.Info, cond ast.Expr) ast.Expr {
+	be, ok := ast.Unparen(cond).(*ast.BinaryExpr)
+	if !ok || be.Op != token.EQL {
+		return nil
+	}
+	var k ast.Expr
+	switch {
+	case isStatusSel(info, be.X):
+		k = be.Y
+	case isStatusSel(info, be.Y):
+		k = be.X
+	}
+	if k == nil {
+		return nil
+	}
+	if _, isConst := constVal(info, k); !isConst {
+		return nil
+	}
+	return k
+}
+
+// statusSwitchOf returns the first `switch <x>.status { … }` of body, or — when the same decision is written as a chain
+// `if x.status == K1 { … } else if x.status == K2 { … } else { … }` — a switch statement synthesized from the chain
+// (clauses keep the positions of the branches they stand for), or nil.
+func statusSwitchOf(info *types.Info, body *ast.BlockStmt) *ast.SwitchStmt {
+	var sw *ast.SwitchStmt
+	ast.Inspect(body, func(n ast.Node) bool {
+		if sw != nil {
+			return false
+		}
+		switch s := n.(type) {
+		case *ast.SwitchStmt:
+			if s.Tag != nil && isStatusSel(info, s.Tag) {
+				sw = s
+			}
+		case *ast.IfStmt:
+			if s.Init != nil || statusKindTest(info, s.Cond) == nil {
+				return true
+			}
+			var tag ast.Expr
+			be := ast.Unparen(s.Cond).(*ast.BinaryExpr)
+			if isStatusSel(info, be.X) {
+				tag = be.X
+			} else {
+				tag = be.Y
+			}
+			syn := &ast.SwitchStmt{Switch: s.Pos(), Tag: tag, Body: &ast.BlockStmt{Lbrace: s.Body.Lbrace, Rbrace: s.End()}}
+			for is := s; is != nil; {
+				k := statusKindTest(info, is.Cond)
+				if k == nil || is.Init != nil {
+					return true // a mixed chain: not a decision on the status alone
+				}
+				syn.Body.List = append(syn.Body.List, &ast.CaseClause{Case: is.Pos(), List: []ast.Expr{k}, Colon: is.Body.Lbrace, Body: is.Body.List})
+				switch e := is.Else.(type) {
+				case *ast.IfStmt:
+					is = e
+				case *ast.BlockStmt:
+					syn.Body.List = append(syn.Body.List, &ast.CaseClause{Case: e.Pos(), Colon: e.Lbrace, Body: e.List})
+					is = nil
+				default:
+					is = nil
+				}
+			}
+			sw = syn
+		}
+		return sw == nil
+	})
+	return sw
 }
